@@ -636,6 +636,73 @@ def rule_direct_read(fns) -> typing.List[dict]:
             return [(a, op, b)]
         return []
 
+    def scaled(t, env, depth=0):
+        """term -> (name, numerator, denominator) for `x`, `x*8`, `x/8`, `x<<3`, `x>>3` (constant locals resolved)"""
+        if t[0] == "ref":
+            if t[1] in env and depth < 4:
+                r = scaled(env[t[1]], env, depth + 1)
+                if r is not None:
+                    return r
+            return (t[1], 1, 1)
+        if t[0] == "bin" and t[1] in ("*", "/", "<<", ">>"):
+            l, r = t[2], t[3]
+            if t[1] == "*" and l[0] == "int":
+                l, r = r, l
+            if r[0] != "int":
+                return None
+            k = r[1] if t[1] in ("*", "/") else (1 << r[1])
+            b = scaled(l, env, depth + 1)
+            if b is None or k <= 0:
+                return None
+            name, n_, d_ = b
+            if t[1] in ("*", "<<"):
+                if d_ != 1:
+                    return None          # (x/8)*8 is not x
+                return (name, n_ * k, 1)
+            if n_ != 1:
+                return None
+            return (name, 1, d_ * k)
+        return None
+
+    def scaled_facts(cond, pol, env):
+        c = cast.strip_casts(cond)
+        if c.get("kind") == "BinaryOperator" and c.get("opcode") in ("&&", "||"):
+            if (c["opcode"] == "&&") == pol:
+                return [f for x in c.get("inner", []) for f in scaled_facts(x, pol, env)]
+            return []
+        if c.get("kind") == "UnaryOperator" and c.get("opcode") == "!":
+            return scaled_facts(c["inner"][0], not pol, env)
+        if c.get("kind") == "BinaryOperator" and c.get("opcode") in ("<", "<=", ">", ">="):
+            a, b = (scaled(cast.term(x), env) for x in c["inner"])
+            if a is None or b is None:
+                return []
+            op = c["opcode"]
+            if not pol:
+                op = {"<": ">=", "<=": ">", ">": "<=", ">=": "<"}[op]
+            if op in (">", ">="):
+                a, b, op = b, a, {">": "<", ">=": "<="}[op]
+            return [(a, op, b)]
+        return []
+
+    def below_size(ix, facts, sizes):
+        """is index term ix = (x, 1, d) proved < size by a fact?  x/d < size  <=  x/d < size  or  x < size*d"""
+        weak = []
+        for a, op, b in facts:
+            if a[0] != ix[0] or b[0] not in sizes:
+                continue
+            # a = x*an/ad, b = size*bn/bd ; for the shapes met: (ad == d, bn == bd == 1) or (an == ad == 1, bn == d, bd == 1)
+            same = (a == ix and b[1:] == (1, 1)) or (a[1:] == (1, 1) and b[1:] == (ix[2], 1))
+            if not same:
+                continue
+            if op == "<":
+                return True, weak
+            weak.append((a, op, b))
+        return False, weak
+
+    def show_scaled(x):
+        name, n_, d_ = x
+        return name + (f" * {n_}" if n_ != 1 else "") + (f" / {d_}" if d_ != 1 else "")
+
     def always_returns(n):
         k = n.get("kind")
         if k == "ReturnStmt":
@@ -655,6 +722,8 @@ def rule_direct_read(fns) -> typing.List[dict]:
         body = cast.body_of(fn)
         if body is None:
             continue
+
+        cenv = cast.const_env(fn)
 
         def visit(n, guards, parent=None):
             k = n.get("kind")
@@ -686,7 +755,16 @@ def rule_direct_read(fns) -> typing.List[dict]:
             if k == "ArraySubscriptExpr" and len(inner) == 2 and cast.ref_name(inner[0]) in bufs \
                     and not (parent is not None and parent.get("kind") == "UnaryOperator" and parent.get("opcode") == "&"):
                 idx = cast.ref_name(inner[1])
-                if idx is not None:
+                ix = scaled(cast.term(inner[1]), cenv)
+                if ix is not None and (idx is None or ix != (idx, 1, 1)) and ix[1] == 1:
+                    # `buf[off_bits / 8U]`, or an index held in a constant local that is such a quotient
+                    sfacts = [f for g, pol in guards for f in scaled_facts(g, pol, cenv)]
+                    ok, weak = below_size(ix, sfacts, sizes)
+                    out.append(res(R, name, f"{name}: direct read `{cast.ref_name(inner[0])}[{show_scaled(ix)}]` only where the index is below {sizes[0]}", ok,
+                                   (f"the guards on the way establish only {show_scaled(weak[0][0])} {weak[0][1]} {show_scaled(weak[0][2])}" if weak
+                                    else "no guard relates the index to the buffer size") +
+                                   ": the byte just past the end of the caller's buffer is read where the specification demands an implicit zero"))
+                elif idx is not None:
                     facts = [f for g, pol in guards for f in rel_facts(g, pol)]
                     ok = any(a == idx and op == "<" and b in sizes for a, op, b in facts)
                     weak = [f for f in facts if f[0] == idx and f[2] in sizes]
